@@ -398,9 +398,13 @@ class HistogramND(HistogramBase):
             )
         if weights is not None:
             weights = np.asarray(weights)
+            if weights.shape != (values_array.shape[0],):
+                raise ValueError(
+                    f"Weights array shape ({weights.shape}) != expected (({values_array.shape[0]},))."
+                )
         if dropna:
             valid_rows = ~np.isnan(values_array).any(axis=1)
-            if weights is not None and weights.shape == valid_rows.shape:
+            if weights is not None:
                 weights = weights[valid_rows]
             values_array = values_array[valid_rows]
         if values_array.shape[0] == 0:
